@@ -36,6 +36,8 @@ RULE = ("bounded-rate event models (shared generator, incl. range-style state na
         "(3-5 calls, exact and tau-leap, raw and gridded, pre_tau / epsilon left over, initial values re-assigned in another form or "
         "with other values inside the limits, parameters changed and restored, a deep copy of the configured instance taking over, a sibling instance (same or another definition and limits) simulated in between, first call repeated, last call "
         "repeated on a fresh instance, every returned array kept and compared again at the end, caller's arrays unchanged); "
+        "side effects the pure model excludes but the property does not state (caller's objects or model.initial_state written to, a "
+        "repeated call or a fresh instance not reproducing a call) are tags and broken correspondence, never violations; "
         "a case is non-trivial when some path has >= 5 accepted steps; rejected tau-leaps, accepted retries and rejected "
         "first-reaction steps are counted in the tags")
 ASSUMPTIONS = ["the initial state is within the declared limits (hypothesis of path_within_limits)",
